@@ -235,8 +235,10 @@ signal_base::~signal_base() {}
 void
 signal_base::clear()
 {
-  if (impl_)
-    impl_->clear();
+  // Keep the signal_impl alive. The functor of a cleared slot may own
+  // the last reference to this signal.
+  if (auto impl = impl_)
+    impl->clear();
 }
 
 signal_base::size_type
